@@ -6,6 +6,7 @@ mkdir -p $S
 rsync -a --delete --exclude .git --exclude sim.test --exclude sim.race.test /repo/ $S/ >/dev/null
 rsync -a --delete /verif/verifsim $S/
 cd $S && go1.26.8 run ./verifsim/cmd/rewriteimports store/fscache >/dev/null || exit 2
+go1.26.8 run ./verifsim/cmd/instrumentgo . >/dev/null || exit 2
 grep -q porcupine go.mod || printf '\nrequire github.com/anishathalye/porcupine v1.3.0\n' >> go.mod
 go1.26.8 vet ./verifsim/... || exit 2
 go1.26.8 test -c -o sim.test ./verifsim/engine || exit 2
